@@ -7,11 +7,11 @@ import (
 	"verif/grammar"
 )
 
-var triviaChoices = []string{"", "", " ", " ", "  ", "\t", "\n", "\r\n", " ;c\n", ";x y [ ] { } _ /\n", "\n\n ", " ; ♯ comment ♭ \n\t"}
+var triviaChoices = []string{"", "", " ", " ", "  ", "\t", "\n", "\r\n", " ;c\n", ";x y [ ] { } _ /\n", "\n\n ", " ; ♯ comment ♭ \n\t", ";a\n;b\n", " ;a\n  ;b\n;c\n", "\r", "\f", "\u00a0", "\u3000 "}
 
-var metaLexemes = []string{"k", "key", "Am", "txt", "a b", "x;y", "120", "v w  x", "5/4", "ff", "日本語", "tail ", "semi;colon", "new\nline", "[1]", "C_7/E", "-", "é😀", "#", "b"}
+var metaLexemes = []string{";-)", ";k", "７", "k", "key", "Am", "txt", "a b", "x;y", "120", "v w  x", "5/4", "ff", "日本語", "tail ", "semi;colon", "new\nline", "[1]", "C_7/E", "-", "é😀", "#", "b"}
 
-var freeSymbols = []string{"m", "dim", "maj7", "aug", "sus4", "M7", "m7b5", "add9", "mM7", "m7", "o", "ø7", "(b9)", "+", "-5", "maj7#11", "mb5", "sus", "Δ", "x]y", "{q", "a,b", "}"}
+var freeSymbols = []string{"７", "m٣", "m", "dim", "maj7", "aug", "sus4", "M7", "m7b5", "add9", "mM7", "m7", "o", "ø7", "(b9)", "+", "-5", "maj7#11", "mb5", "sus", "Δ", "x]y", "{q", "a,b", "}"}
 
 // bareSymbols are the free symbols that lex as one SYMBOL without a leading underscore.
 var bareSymbols = func() []string {
